@@ -96,7 +96,8 @@ CHECKS["C01"] = dict(
 CHECKS["C02"] = dict(
     text="Theorems (same model and scope as C01): calculate() over ds ++ more extends calculate() over ds (batch causality: no "
          "look-ahead), appending to a calculated indicator leaves every existing candle and reading untouched (no repaint), and on a "
-         "collapsing timeframe every bucket but the last (open) one keeps its readings when more candles arrive. "
+         "collapsing timeframe every bucket but the last (open) one keeps its readings when more candles arrive; batch causality also for "
+         "the composite ATR (parent over its helper series). "
          + ENGINE_TIE + "Falsifier: snapshot(t) minus the open bucket is a prefix of snapshot(t') on live appends, batch-on-prefix vs batch-on-whole.",
     note="Leaf indicators with discharged obligations (see C01); other kinds by correspondence + falsifier. Axioms: none.",
     technique="Coq proof (prefix stability of the canonical semantics) + vm_compute correspondence + falsifier", design="5/C02")
